@@ -5,7 +5,7 @@ literals too."""
 from . import formula as F
 from .values import dec, lit_number
 
-NAMES = ['aa', 'ab', 'ac', 'ad', 'ae', 'af', 'ag', 'ah', 'ai', 'aj', 'ak', 'al']
+NAMES = ['a' + chr(97 + i) for i in range(26)] + ['b' + chr(97 + i) for i in range(26)]   # not cell-shaped
 
 
 def literal_node(v):
